@@ -100,3 +100,16 @@ Theorem c10_addref_is_source :
                    Forall (fun s => match s with SIncDec _ _ | SAssign _ _ _ => False | _ => True end) (pre ++ post).
 Proof. exact Decisions.addref_is_increment. Qed.
 Print Assumptions c10_addref_is_source.
+
+Theorem c10_mutation_publish_order_is_source :
+  before "t.rootAddRef" "t.store.union" (call_list "Collection.SetItem") = true /\
+  before "t.store.union" "t.unmarkReclaimable" (call_list "Collection.SetItem") = true /\
+  before "t.store.union" "t.rootCAS" (call_list "Collection.SetItem") = true /\
+  before "t.rootAddRef" "t.store.split" (call_list "Collection.Delete") = true /\
+  before "t.store.split" "t.store.join" (call_list "Collection.Delete") = true /\
+  before "t.store.join" "t.rootCAS" (call_list "Collection.Delete") = true /\
+  count_occ string_dec (call_list "Collection.Delete") "t.unmarkReclaimable" = 2%nat /\
+  count_occ string_dec (call_list "Collection.SetItem") "t.rootCAS" = 1%nat /\
+  count_occ string_dec (call_list "Collection.Delete") "t.rootCAS" = 1%nat.
+Proof. exact Decisions.mutation_publish_order. Qed.
+Print Assumptions c10_mutation_publish_order_is_source.
